@@ -4,6 +4,7 @@ import checklib
 from checklib import Prop
 from formats import valid7 as V
 from formats import rules7 as R
+from formats import legacy as L
 from props import c06 as C06
 
 JSON_FORMATS = ("composeinfo", "images", "rpms", "modules", "extra_files")
@@ -118,20 +119,263 @@ def json_fields(fmt, doc):
         for f in fields:
             if f in d:
                 out.append((path + [f], cls, path))
-    sec(["payload", "compose"], "composeinfo.Compose", ["id", "type", "date", "respin", "label"])
+    # below 0.3 the compose `type` must be there but its value is ignored (date, type and respin are decoded from the id)
+    sec(["payload", "compose"], "composeinfo.Compose", ["id", "type", "date", "respin", "label"] if "date" in pl["compose"] else ["id", "label"])
     if fmt == "composeinfo":
-        sec(["payload", "release"], "composeinfo.Release", ["name", "version", "short", "type"])
+        rel = "release" if "release" in pl else "product"           # the section is called `product` at <= 0.3
+        sec(["payload", rel], "composeinfo.Release", ["name", "version", "short", "type"])
         if "base_product" in pl:
             sec(["payload", "base_product"], "composeinfo.BaseProduct", ["name", "version", "short", "type"])
         for uid, v in pl["variants"].items():
             sec(["payload", "variants", uid], "composeinfo.Variant", ["id", "name", "type", "arches"])
-            if "release" in v:
-                sec(["payload", "variants", uid, "release"], "composeinfo.Release", ["name", "version", "short", "type"])
+            for r in ("release", "product"):
+                if r in v and v.get("type") == "layered-product":
+                    sec(["payload", "variants", uid, r], "composeinfo.Release", ["name", "version", "short", "type"])
     if fmt == "images":
         for v, arches in pl["images"].items():
             for a, imgs in arches.items():
                 for i, _ in enumerate(imgs):
                     sec(["payload", "images", v, a, i], "images.Image", [f for f in V.IMAGE_FIELDS if f != "bootable"])
+    return out
+
+
+# ------------------------------------------------------------------------------------------------ documents of older formats
+LEGACY_KEY = {"composeinfo": "ci", "images": "img", "rpms": "rpms", "treeinfo": "ti"}
+SUFFIX_OF = {"production": "", "nightly": ".n", "test": ".t", "ci": ".ci", "development": ".d"}
+NO_HEADER = "none"          # a treeinfo without [header]: read as a pre-productmd file (0.0)
+
+
+def legacy_versions(fmt):
+    """every supported OLDER version of a format: the fixed boundary list of formats.legacy plus both neighbours of every
+    `version_tuple <op> (a, b)` bound read from the source under test (so that a moved gate moves the probes)"""
+    if fmt in LEGACY_KEY:
+        vs = L.versions_for(checklib.REPO, LEGACY_KEY[fmt])
+    else:
+        vs = ["1.1", "1.0", "0.9", "0.3", "0.2", "0.0"] + L.gate_versions(checklib.REPO, ["common", "composeinfo"])
+    cur = tuple(int(x) for x in current_version().split("."))
+    vs = [v for v in dict.fromkeys(vs) if L.vt(v) < cur]
+    if fmt == "treeinfo":
+        vs = [v for v in vs if v != "0.0"]
+        vs = vs[:len(vs) // 2] + [NO_HEADER] + vs[len(vs) // 2:] + [NO_HEADER]       # files without a header: twice per round
+    return vs
+
+
+def current_version():
+    checklib.use_repo()
+    import productmd.common
+    return ".".join(str(x) for x in productmd.common.VERSION)
+
+
+def couple_id(comp):
+    """below 0.3 date, type and respin exist only inside the compose id: rebuild the id around them (None: not expressible)"""
+    d, t, r = comp.get("date"), comp.get("type"), comp.get("respin")
+    # the three keys do not exist below 0.3 (and `type` is ignored): where the current-format values cannot be spelled inside an id
+    # (a Unicode-digit date, a negative or bool respin) the older document simply carries other ones
+    if not (isinstance(d, str) and len(d) == 8 and d.isascii() and d.isdigit()):
+        d = "20200101"
+    if t not in SUFFIX_OF:
+        t = "nightly"
+    if not (isinstance(r, int) and not isinstance(r, bool) and 0 <= r < 10 ** 7):
+        r = 3
+    return "Xy-1-%s%s.%s" % (d, SUFFIX_OF[t], r)
+
+
+def legacy_down(fmt, doc, ver):
+    """the content of a current-format document (the library's own output) as a document of format `ver` (formats.legacy: written from
+    the format documentation); None when the content cannot be expressed in that format"""
+    if fmt == "treeinfo":
+        d = copy.deepcopy(doc)
+        if ver == NO_HEADER:
+            d.pop("header", None)
+            return d if "general" in d else None
+        t = L.vt(ver)
+        d["header"] = {"version": ver} if t < (1, 1) else {"type": "productmd.treeinfo", "version": ver}
+        if t <= (0, 3):
+            d["product"] = d.pop("release")
+            for s in d:
+                if s.startswith("variant-") or s.startswith("addon-"):
+                    d[s].pop("parent", None)
+        return d
+    t = L.vt(ver)
+    d = copy.deepcopy(doc)
+    if t < (0, 3):
+        cid = couple_id(d["payload"]["compose"])
+        if cid is None:
+            return None
+        d["payload"]["compose"]["id"] = cid
+    if fmt == "composeinfo":
+        return L.ci_down(d, ver)
+    if fmt == "images":
+        return L.img_down(d, ver)
+    if fmt == "rpms":
+        return L.rpms_down(d, ver)
+    d["header"] = {"version": ver} if t < (1, 1) else {"type": HEADER_TYPES[fmt], "version": ver}
+    if t < (0, 3):
+        d["payload"]["compose"].pop("date"); d["payload"]["compose"].pop("respin")
+    return d
+
+
+def has_path(doc, path):
+    try:
+        get_path(doc, path)
+        return True
+    except (KeyError, IndexError, TypeError):
+        return False
+
+
+def legacy_rename(fmt, doc, path):
+    """a path into a current-format document -> the same place in the older document: `release` is `product` at <= 0.3 (also inside a
+    layered-product variant), the rpms table is `manifest` at <= 0.3"""
+    old_rel = ("product" in doc) if fmt == "treeinfo" else ("product" in doc.get("payload", {}))
+    old_tab = fmt == "rpms" and "manifest" in doc.get("payload", {})
+    return [("product" if (x == "release" and old_rel) else "manifest" if (x == "rpms" and i == 1 and old_tab) else x) for i, x in enumerate(path)]
+
+
+def legacy_shim(fmt, doc):
+    """the older document with its `product` section ALSO visible under the current name (only to drive the current-format mod generators)"""
+    if fmt == "treeinfo" and "product" in doc:
+        return dict(doc, release=doc["product"])
+    if fmt == "composeinfo" and "product" in doc["payload"]:
+        pl = dict(doc["payload"], release=doc["payload"]["product"])
+        pl["variants"] = dict((u, (dict(v, release=v["product"]) if "product" in v else v)) for u, v in pl["variants"].items())
+        return dict(doc, payload=pl)
+    return doc
+
+
+def legacy_required_mods(fmt, doc, ver):
+    """required_mods / conditional_required_mods of the current format, carried to the older document; keys the older format does not have
+    (header type below 1.1, compose date/respin below 0.3, subvariant at <= 1.0) drop out because they are not in the document.
+    -> [(mods, tag)], all 'reject'"""
+    if ver == NO_HEADER:
+        return []
+    out = []
+    shim = legacy_shim(fmt, doc)
+    for m in required_mods(fmt, shim):
+        m = dict(m, path=legacy_rename(fmt, doc, m["path"]))
+        if has_path(doc, m["path"]):
+            out.append(([m], "required:" + "/".join(str(x) for x in m["path"][-2:])))
+    for ms, tag in conditional_required_mods(fmt, shim):
+        if "from-1.1" in tag:
+            continue                                        # these probe the CURRENT format's gates by rewriting the version
+        ms = [dict(m, path=legacy_rename(fmt, doc, m["path"])) for m in ms]
+        if all(has_path(doc, m["path"][:-1]) for m in ms) and all(has_path(doc, m["path"]) for m in ms if "delete" in m):
+            out.append((ms, tag))
+    return out
+
+
+def legacy_special_mods(fmt, doc, ver, rng, T):
+    """corruptions of what only the OLDER readers do. -> [(mods, tag, expect)]"""
+    out = []
+    M = lambda tag, *mods, **kw: out.append((list(mods), tag, kw.get("expect", "reject")))
+    S = lambda v, *p: {"path": list(p), "value": v}
+    D = lambda *p: {"path": list(p), "delete": True}
+    t = None if ver == NO_HEADER else L.vt(ver)
+    if fmt == "composeinfo":
+        vs = doc["payload"]["variants"]
+        if t < (1, 0):
+            # no child lists: a variant is a child of the entry whose UID is the part before its last dash
+            for uid, v in vs.items():
+                head = uid.rsplit("-", 1)[0] if "-" in uid else None
+                if head in vs:
+                    M("legacy-child-uid-misaligned", S(uid + "x", "payload", "variants", uid, "uid"))
+                    M("legacy-child-id-misaligned", S(str(v.get("id")) + "x", "payload", "variants", uid, "id"))
+                    foreign = [a for a in ("sparc", "ia64", "s390", "armhfp") if a not in (vs[head].get("arches") or [])]
+                    if foreign and isinstance(v.get("arches"), list):
+                        M("legacy-child-foreign-arch", S(sorted(set(v["arches"]) | {foreign[0]}), "payload", "variants", uid, "arches"))
+                    if not any(k != uid and k.startswith(head + "-") for k in vs) and not any(k.startswith(uid + "-") for k in vs):
+                        M("legacy-parent-entry-deleted", D("payload", "variants", head))        # the child becomes a dashed top-level variant
+        if t < (0, 3):
+            M("legacy-id-without-date", S("Xy-1", "payload", "compose", "id"))
+            M("legacy-id-not-a-string", S(7, "payload", "compose", "id"))
+            M("legacy-id-unknown-type-suffix", S("Xy-1-20200101.x.3", "payload", "compose", "id"))
+            M("legacy-compose-type-ignored", S("floppy", "payload", "compose", "type"), expect="accept")
+        if t <= (0, 3):
+            M("legacy-product-section-renamed", {"path": ["payload", "product"], "rename": "release"})
+    if fmt in ("images", "rpms", "modules", "extra_files") and t < (0, 3):
+        M("legacy-id-without-date", S("Xy-1", "payload", "compose", "id"))
+        M("legacy-id-unknown-type-suffix", S("Xy-1-20200101.x.3", "payload", "compose", "id"))
+        M("legacy-compose-type-ignored", S("floppy", "payload", "compose", "type"), expect="accept")
+    if fmt == "images" and t <= (1, 1):
+        for v, arches in doc["payload"]["images"].items():
+            for a in arches:
+                for bad in ("nosrc", "x86-64", "X86_64", "", "srcx", "SRC", "x86_64 ", "ppc6"):
+                    if bad not in arches and a != "src":
+                        M("legacy-cell-arch:" + bad, {"path": ["payload", "images", v, a], "rename": bad})
+            if "src" in arches and len(arches) > 1:
+                # a source image is re-filed under every OTHER arch key of its variant, each of which must be a known binary arch
+                other = [a for a in arches if a != "src"][0]
+                M("legacy-src-refiled-under-unknown-arch", {"path": ["payload", "images", v, other], "rename": "x86-64"})
+    if fmt == "rpms" and t <= (0, 3):
+        man = doc["payload"]["manifest"]
+        for v, arches in man.items():
+            for a, srpms in arches.items():
+                if a == "src":
+                    continue
+                for bad in ("x86-64", "nosrc", "", "X86_64"):
+                    if bad not in arches:
+                        M("legacy-manifest-arch:" + bad, {"path": ["payload", "manifest", v, a], "rename": bad})
+                for srpm, pkgs in srpms.items():
+                    for nevra in pkgs:
+                        base = ["payload", "manifest", v, a, srpm, nevra]
+                        for ty in ("floppy", "Package", "", None, 5, "src"):
+                            M("legacy-manifest-unknown-category", S(ty, *(base + ["type"])))
+                        for pth in ("", "/abs/p.rpm", None):
+                            M("legacy-manifest-path", S(pth, *(base + ["path"])))
+                        for k in ("type", "path", "sigkey"):
+                            M("legacy-manifest-key-deleted:" + k, D(*(base + [k])))
+                        M("legacy-manifest-nevra", {"path": base, "rename": "notanevra"})
+                        M("legacy-manifest-source-as-binary", S("source", *(base + ["type"])))
+                        break
+                    break
+    if fmt == "treeinfo" and ver == NO_HEADER:
+        g = doc.get("general", {})
+        M("noheader-arch-blank", S("", "general", "arch"))
+        for k in ("arch", "family", "version"):
+            if k in g:
+                M("noheader-general.%s-deleted" % k, D("general", k))
+        M("noheader-version", S("7.x", "general", "version"))
+        M("noheader-timestamp", S("abc", "general", "timestamp"))
+        M("noheader-totaldiscs", S("x", "general", "totaldiscs"))
+        M("noheader-discnum", S("1.5", "general", "discnum"))
+        if "checksums" in doc and doc["checksums"]:
+            M("noheader-checksum-format", S("0123", "checksums", sorted(doc["checksums"])[0]))
+        M("noheader-general-deleted", D("general"))
+    if fmt == "treeinfo" and t is not None and t <= (0, 3):
+        M("legacy-product-section-renamed", {"path": ["product"], "rename": "release"})
+        for k in ("name", "version", "short"):
+            M("legacy-product.%s-deleted" % k, D("product", k))
+        M("legacy-product-version", S("7.x", "product", "version"))
+    return out
+
+
+def cycle_mods(doc):
+    """composeinfo documents whose explicit child lists form a cycle.  A cycle that is REACHABLE from a top-level variant never ends
+    (`Variant.deserialize` builds a fresh object per reference: RecursionError; the cycle test of `VariantBase.add` compares object
+    identity and cannot fire on load) -> 'reject'.  A cycle whose members are all somebody's child has no top-level entry point: its
+    entries are never read, the document loads without them (observed, expectation 'any').  -> [(mods, tag, expect)]"""
+    vs = doc["payload"]["variants"]
+    out = []
+    S = lambda v, *p: {"path": list(p), "value": v}
+
+    def var(id_, uid, kids, arches):
+        return {"id": id_, "uid": uid, "name": "cyc", "type": "variant", "arches": list(arches), "paths": {}, "variants": kids}
+    tops = [u for u, v in vs.items() if "-" not in u and isinstance(v.get("arches"), list) and v.get("type") == "variant"]
+    for u in tops[:1]:
+        a = vs[u]["arches"]
+        kids = sorted(vs[u].get("variants", []))
+        out.append(([S(kids + ["zs"], "payload", "variants", u, "variants"), S(var("zs", u, ["zs"], a), "payload", "variants", u + "-zs")],
+                    "cycle:self-loop-below-top", "reject"))
+        out.append(([S(kids + ["zc"], "payload", "variants", u, "variants"), S(var("zc", u + "-zc", ["zd"], a), "payload", "variants", u + "-zc"),
+                     S(var("zd", u, ["zc"], a), "payload", "variants", u + "-zc-zd")], "cycle:2-cycle-below-top", "reject"))
+        out.append(([S(kids + ["zc"], "payload", "variants", u, "variants"), S(var("zc", u + "-zc", ["zd"], a), "payload", "variants", u + "-zc"),
+                     S(var("zd", u + "-zc-zd", ["ze"], a), "payload", "variants", u + "-zc-zd"),
+                     S(var("ze", u, ["zc"], a), "payload", "variants", u + "-zc-zd-ze")], "cycle:3-cycle-below-top", "reject"))
+    a = ["x86_64"]
+    out.append(([S(var("A", "A", ["A"], a), "payload", "variants", "A-A")], "cycle:unreachable-self-loop", "any"))
+    out.append(([S(var("Q", "P-Q", ["R"], a), "payload", "variants", "P-Q"), S(var("R", "P", ["Q"], a), "payload", "variants", "P-Q-R")],
+                "cycle:unreachable-2-cycle", "any"))
+    out.append(([S(var("b", "a-b", ["c"], a), "payload", "variants", "a-b"), S(var("c", "a-b-c", ["d"], a), "payload", "variants", "a-b-c"),
+                 S(var("d", "a", ["b"], a), "payload", "variants", "a-b-c-d")], "cycle:unreachable-3-cycle", "any"))
     return out
 
 
@@ -419,22 +663,33 @@ def discinfo_value_mods(doc):
 class C07(Prop):
     id = "C07"
     lean_module = "ProductMD.Properties.C07"
-    quick_budget = 2100
-    thorough_budget = 42000
+    quick_budget = 3000
+    thorough_budget = 60000
     rule = ("from valid current-version documents of each format (the library's own output for generated valid objects): value replacement at a uniformly chosen "
             "documented field with a value outside its domain after the reader's coercion, header version mangled, type gate probed at 1.0/1.1/1.2 with every "
             "format's type and with the type missing, each required key/section/line deleted, image cell keyed by a source/unknown arch, misaligned child UID, "
-            "child arch outside its parent's; correspondence: ok/err of real loads vs the loads model (all seven formats in full for current-format documents, "
-            "incl. the composeinfo forest rebuild and every treeinfo section); oracle: corrupted => exception; valid => loaded; every part of a loaded object satisfies the catalogue")
+            "child arch outside its parent's, child lists forming a cycle (reachable from a top-level variant: refused; unreachable: never read); a third of "
+            "the cases carry the same content as a document of an OLDER format version (every boundary version per format read from the source's gates: "
+            "composeinfo 0.0..1.1, images 0.0..1.1, rpms 0.0..1.1, modules/extra_files 0.0..1.1, treeinfo 0.1..1.1 and files without a header; spec-level "
+            "down-converters of formats.legacy), clean or with one corruption: required key/section deleted, value outside its domain, and what only the older "
+            "readers do (id without a date / with an unknown type suffix below 0.3, `release` instead of `product` at <= 0.3, prefix-related child with a foreign "
+            "arch / misaligned uid below 1.0, unknown category / arch / absolute path / malformed NEVRA in a 0.3 manifest, unknown arch of an images cell at <= 1.1, "
+            "blank arch / bad numbers in a header-less treeinfo); correspondence: ok/err of real loads vs the loads model, total over versions (all seven "
+            "formats, incl. the composeinfo forest rebuild, every treeinfo section and every legacy reader); oracle: corrupted => exception; valid => loaded; "
+            "every part of a loaded object satisfies the catalogue; an object loaded from an older document is not refused by dumps()")
     assumptions = ["json.load / configparser are the trusted parsers; the INI document handed to the model is configparser's own parse of the same text",
                    "bool()-coerced fields (bootable, final, is_layered, internal) have no rejecting set and are not corrupted",
                    "the rule of a field is applied AFTER the reader's documented coercion: a falsy label in a document ('' 0 false [] {} null) is read as 'no label' "
                    "(`data.get('label') or None`) and the document loads (decided: not a C07 violation; what C07 guarantees is that the LOADED object satisfies "
                    "the write-side constraints, which it does); such documents are generated with expectation 'accept'. On the write side (C06) a blank label '' "
                    "in an object is outside the label's domain and must be refused",
-                   "the readers a version gate selects for documents older than 1.0 (composeinfo, rpms <= 0.3) / 0.4 (treeinfo, incl. files without a header) are not "
-                   "modelled (C05): the model answers Other there, C07_sound_* say nothing about such documents; the value of float() is modelled for plain decimal "
-                   "notation only (its syntax errors exactly)"]
+                   "the value of float() is modelled for plain decimal notation only (its syntax errors exactly): a treeinfo timestamp in exponent notation is "
+                   "outside the model (Other), also in the [general] section of a header-less file",
+                   "documents of older formats: the legacy-specific reader steps are C05's models (get_date_type_respin, the 0.3 manifest replayed through the C12 "
+                   "model of Rpms.add, prefix-derived variant table, the treeinfo <= 0.3 / header-less reader on the typed INI document); a 0.3 manifest with a "
+                   "signing key that is neither a string nor null is outside the model (Other)",
+                   "a composeinfo child-list cycle none of whose members is a top-level variant is never read: the document loads without those entries (the "
+                   "loaded object satisfies every rule; expectation 'any', outcome recorded in stats.unreachable_cycle_outcome)"]
     partial = {}
 
     def __init__(self):
@@ -487,14 +742,20 @@ class C07(Prop):
             except Exception:   # noqa: what the writer accepts and the reader refuses (discinfo disc numbers 'x', a blank-only arch, timestamp 0.5) is C04's
                 self.unloadable = getattr(self, "unloadable", 0) + 1
                 continue
-            kind = ["valid", "version", "gate", "required", "value", "value", "special", "value", "accept"][k % 9]
+            mk = lambda mods, tag, expect: {"op": "c07", "args": {"fmt": fmt, "doc": doc, "mods": mods, "tag": tag, "expect": expect}}
+            if fmt != "discinfo" and k % 3 == 2:
+                # the same content as a document of an OLDER format version (every version per format in turn), clean or with one corruption
+                c = self.legacy_case(fmt, doc, rng, T)
+                if c is not None:
+                    n += 1; yield c
+                continue
+            kind = ["valid", "version", "gate", "required", "value", "value", "special", "value", "accept"][(k - k // 3) % 9]
             if kind == "accept":
                 acc = accept_mods(fmt, doc, rng)
                 if acc:
                     m, tag = acc[(k // 9) % len(acc)]
                     n += 1; yield mk(m, tag, "any" if tag.startswith("version-odd") else "accept"); continue
                 kind = "value"
-            mk = lambda mods, tag, expect: {"op": "c07", "args": {"fmt": fmt, "doc": doc, "mods": mods, "tag": tag, "expect": expect}}
             if fmt == "discinfo":
                 if kind in ("version", "gate"):
                     kind = "value"
@@ -535,6 +796,12 @@ class C07(Prop):
                 pool = sections if (stratum == 1 and sections) else mods
                 m = pool[(self._rq // 3) % len(pool)] if pool is sections else rng.choice(pool)
                 n += 1; yield mk([m], "required:" + "/".join(str(x) for x in m["path"][-2:]), "reject"); continue
+            if kind == "special" and fmt == "composeinfo":
+                self._cy = getattr(self, "_cy", 0) + 1
+                if self._cy % 2 == 0:
+                    cy = cycle_mods(doc)
+                    ms, tag, expect = cy[(self._cy // 2) % len(cy)]
+                    n += 1; yield mk(ms, tag, expect); continue
             if kind == "special":
                 sp = special_mods(fmt, doc, rng, T) if fmt in JSON_FORMATS else []
                 if sp:
@@ -556,6 +823,57 @@ class C07(Prop):
                 else:
                     m, tag = rng.choice(discinfo_value_mods(doc))
                 n += 1; yield mk([m], tag, "reject")
+
+    def legacy_case(self, fmt, doc, rng, T):
+        st = self.__dict__.setdefault("_lg", {})
+        vers = self.__dict__.setdefault("_lgv", {})
+        if fmt not in vers:
+            vers[fmt] = legacy_versions(fmt)
+        j = st.get(fmt, 0)
+        st[fmt] = j + 1
+        ver = vers[fmt][j % len(vers[fmt])]
+        ldoc = legacy_down(fmt, doc, ver)
+        nl = self.__dict__.setdefault("legacy_skipped", {})
+        if ldoc is None:
+            nl["not-expressible"] = nl.get("not-expressible", 0) + 1
+            return None
+        try:
+            chk = V.new(fmt); chk.loads(to_text(fmt, ldoc))
+        except Exception:   # noqa: content the older format cannot carry (composeinfo below 1.0 deeper than two levels: F32; a dashed top-level UID
+            nl["base-not-loadable:%s" % fmt] = nl.get("base-not-loadable:%s" % fmt, 0) + 1      # beside its prefix; treeinfo compatibility sections: F45/F46)
+            return None
+        mk = lambda mods, tag, expect: {"op": "c07", "args": {"fmt": fmt, "doc": ldoc, "mods": mods, "tag": tag, "expect": expect, "version": ver}}
+        kind = ["valid", "required", "value", "special", "special", "value", "required", "special"][(j // len(vers[fmt])) % 8]
+        if kind == "required":
+            rq = legacy_required_mods(fmt, ldoc, ver)
+            if rq:
+                ms, tag = rq[(j // (8 * len(vers[fmt]))) % len(rq)] if rng.random() < 0.5 else rng.choice(rq)
+                return mk(ms, "legacy-" + tag, "reject")
+            kind = "special"
+        if kind == "value":
+            if fmt in JSON_FORMATS:
+                m, tag, _ = value_mod(fmt, ldoc, rng, T)
+                if m is not None:
+                    return mk([m], "legacy-" + tag, "reject")
+            elif ver != NO_HEADER:
+                tv = [(dict(m, path=legacy_rename(fmt, ldoc, m["path"])), tag) for m, tag in treeinfo_value_mods(legacy_shim(fmt, ldoc), rng)]
+                tv = [(m, tag) for m, tag in tv if has_path(ldoc, m["path"]) or "rename" not in m and "delete" not in m and has_path(ldoc, m["path"][:-1])]
+                tv = [(m, tag) for m, tag in tv if m["path"][0] != "release"]
+                if tv:
+                    m, tag = rng.choice(tv)
+                    return mk([m], "legacy-" + tag, "reject")
+            kind = "special"
+        if kind == "special":
+            sp = legacy_special_mods(fmt, ldoc, ver, rng, T)
+            if fmt in JSON_FORMATS and not (sp and rng.random() < 0.6):       # what only the older readers do comes first
+                old_src = fmt == "images" and L.vt(ver) <= (1, 1)       # at <= 1.1 a cell keyed `src` is legal: its images are re-filed
+                sp += [([m], tag, "reject") for m, tag in special_mods(fmt, ldoc, rng, T) if not (old_src and tag == "cell-arch:src")]
+            if fmt == "composeinfo" and L.vt(ver) >= (1, 0) and rng.random() < 0.3:
+                sp = cycle_mods(ldoc)
+            if sp:
+                ms, tag, expect = rng.choice(sp)
+                return mk(ms, tag if tag.startswith("legacy-") or tag.startswith("noheader-") else "legacy-" + tag, expect)
+        return mk([], "legacy-valid", "accept")
 
     # ---------------------------------------------------------------------------- real
     def final_doc(self, case):
@@ -606,7 +924,13 @@ class C07(Prop):
                 bad.append([pth, cls, v])
             if R.violated(cls, snap, T, lenient=True):
                 bad_lenient.append(pth)
-        return {"loads": "ok", "violations": bad, "violations_lenient": bad_lenient}
+        out = {"loads": "ok", "violations": bad, "violations_lenient": bad_lenient}
+        if a.get("version") is not None:
+            # what was loaded from an older document can be written: `dumps()` raises no rule violation (ValueError / TypeError)
+            w = V.outcome(obj.dumps)
+            out["dumps"] = "ok" if "ok" in w else w["err"]
+            out["top_level_variants"] = len(getattr(getattr(obj, "variants", None), "variants", {}) or {}) if fmt in ("composeinfo", "treeinfo") else None
+        return out
 
     def read(self, obj, text, via):
         """load()/loads() through one of the documented entry points"""
@@ -643,6 +967,11 @@ class C07(Prop):
     def compare(self, case, real_out, model_out):
         if real_out["loads"] == "MOD-NA" or model_out in ("Other", "front-ok"):
             self.outside += 1
+            if real_out["loads"] != "MOD-NA":
+                a = case["args"]
+                ob = self.__dict__.setdefault("outside_by", {})
+                kk = "%s/%s/%s/%s" % (a["fmt"], a.get("version", "current"), a["tag"].split(":")[0], "ok" if real_out["loads"] == "ok" else "err")
+                ob[kk] = ob.get(kk, 0) + 1
             return None
         r = "ok" if real_out["loads"] == "ok" else "err"
         m = "ok" if model_out == "ok" else "err"
@@ -665,8 +994,14 @@ class C07(Prop):
                 return {"observed": {"loads": "ok", "violations": real_out["violations"][:3], "only_trailing_newline": only_nl, "mods": a["mods"], "preload": a.get("preload")},
                         "required": "everything obtained from a successful load satisfies the catalogue", "kind": "loaded-invalid"}
             if a["expect"] == "reject":
-                return {"observed": {"loads": "ok", "only_trailing_newline": self.trailing_nl(case), "mods": a["mods"], "tag": a["tag"], "preload": a.get("preload")},
+                return {"observed": {"loads": "ok", "only_trailing_newline": self.trailing_nl(case), "mods": a["mods"], "tag": a["tag"], "preload": a.get("preload"),
+                                     "version": a.get("version")},
                         "required": "load/loads raises: " + a["tag"], "kind": "accepted-invalid"}
+            if real_out.get("dumps") in ("ValueError", "TypeError"):
+                return {"observed": {"loads": "ok", "dumps": real_out["dumps"], "version": a.get("version"), "mods": a["mods"], "tag": a["tag"],
+                                     "only_trailing_newline": self.trailing_nl(case)},
+                        "required": "an object loaded from an older document satisfies the constraints writing enforces: dumps() does not refuse it",
+                        "kind": "loaded-not-writable"}
             return None
         if a["expect"] == "accept":
             return {"observed": {"loads": lo, "mods": a["mods"], "tag": a["tag"]}, "required": "a valid document loads", "kind": "refused-valid"}
@@ -680,11 +1015,23 @@ class C07(Prop):
         k = "%s/%s/%s" % (a["fmt"], a["tag"].split(":")[0], "ok" if real_out["loads"] == "ok" else ("err" if real_out["loads"] != "MOD-NA" else "n/a"))
         if a.get("preload"):
             dist["preloaded"] = dist.get("preloaded", 0) + 1
+        if a.get("version") is not None:
+            lv = dist.setdefault("legacy_versions", {})
+            kk = "%s/%s/%s" % (a["fmt"], a["version"], "ok" if real_out["loads"] == "ok" else ("err" if real_out["loads"] != "MOD-NA" else "n/a"))
+            lv[kk] = lv.get(kk, 0) + 1
+            if real_out.get("dumps") not in (None, "ok"):
+                dd = dist.setdefault("legacy_loaded_dumps_refused", {})
+                dd[real_out["dumps"]] = dd.get(real_out["dumps"], 0) + 1
+            dist["legacy_skipped"] = dict(getattr(self, "legacy_skipped", {}))
+        if a["tag"].startswith("cycle:unreachable") or a["tag"].startswith("legacy-cycle:unreachable"):
+            cu = dist.setdefault("unreachable_cycle_outcome", {})
+            cu[real_out["loads"]] = cu.get(real_out["loads"], 0) + 1
         dist[k] = dist.get(k, 0) + 1
         if real_out["loads"] not in ("ok", "MOD-NA"):
             d = dist.setdefault("exception_classes", {})
             d[real_out["loads"]] = d.get(real_out["loads"], 0) + 1
         dist["outside_model"] = self.outside
+        dist["outside_model_by"] = dict(getattr(self, "outside_by", {}))
         dist["base_document_not_loadable"] = getattr(self, "unloadable", 0)
         v = dist.setdefault("via", {}); v[a.get("via", "loads")] = v.get(a.get("via", "loads"), 0) + 1
 
@@ -696,6 +1043,6 @@ PROP = C07()
 
 MANIFEST = dict(
     technique="Lean 4 proof over a fill+checks model of loads(): validate() placement in every section reader read from the regenerated call structure (decide), header version/type gate from the regenerated gate, rule catalogue inclusion (C06); differential correspondence of the ok/err outcome; oracle on the real library with document corruptions",
-    text="C07_flags: every section reader ends by validating what it filled and loads() validates the top-level object (decide on Generated/Structure.lean). C07_sound_<format>: loads d = ok x => every part of x satisfies the catalogue (all seven formats; composeinfo: every variant of the forest rebuilt from the document at any depth; treeinfo: every section and variant). C07_header: a successful load has a version matching ^\\d+\\.\\d+$ and, when the generated gate (>= (1,1)) holds, the class's own type. C07_gate_boundary: the gate is exactly >= (1,1). C07_required_*: deleting header/version/type(>=1.1)/payload/compose/compose keys/payload table yields an error.",
-    note="Only ok/err is observed (any exception class). Readers of formats older than 1.0 are not modelled. Known finding F15 (trailing line feed accepted by `$`).",
+    text="C07_flags: every section reader ends by validating what it filled and loads() validates the top-level object (decide on Generated/Structure.lean). C07_legacy_dispatch(_add/_treeinfo): every legacy reader is reached only through its class's dispatcher under the generated gate and the dispatcher validates after the dispatch; rpms deserialize_0_3 and images _add_1_1 file through add. C07_gates_total / C07_ti_gates_total: every gate has a verdict for every version. C07_sound_<format>_all_versions (composeinfo, images, rpms, treeinfo): loads d = ok x for a document of ANY format version (and a treeinfo without header) => every part of x satisfies the catalogue; rpms: a <= 0.3 manifest was accepted entry by entry by the add model. C07_compose_legacy_decoded, C07_required_product, kernel-evaluated witnesses for 0.2 composeinfo / 0.3 rpms / header-less and 0.3 treeinfo. C07_sound_<format>: loads d = ok x => every part of x satisfies the catalogue (all seven formats; composeinfo: every variant of the forest rebuilt from the document at any depth; treeinfo: every section and variant). C07_header: a successful load has a version matching ^\\d+\\.\\d+$ and, when the generated gate (>= (1,1)) holds, the class's own type. C07_gate_boundary: the gate is exactly >= (1,1). C07_required_*: deleting header/version/type(>=1.1)/payload/compose/compose keys/payload table yields an error.",
+    note="Only ok/err is observed (any exception class). The load models are total over header versions (legacy-specific steps are C05's models). Known finding F15 (trailing line feed accepted by `$`).",
     ref="7/C07")
